@@ -2,6 +2,7 @@ package main
 
 import (
 	"fmt"
+	"go/token"
 	"sort"
 	"strings"
 
@@ -79,18 +80,69 @@ func runC15(c *Check) {
 		}
 		return ""
 	}
+	// putKeys: the key(s) a Put writes — the one named by its argument, or, for a table of
+	// entries written by one loop, the key of every row
+	putKeys := func(n *Node) []string {
+		if k := keyName(ArgTerm(n, 1)); k != "" {
+			return []string{k}
+		}
+		call, ok := n.In.(ssa.CallInstruction)
+		if !ok {
+			return nil
+		}
+		for _, a := range call.Common().Args {
+			if !strings.HasSuffix(a.Type().String(), "go-datastore.Key") {
+				continue
+			}
+			kal, kf := tableField(a, 0)
+			if kal == nil {
+				return nil
+			}
+			lit := kal
+			for _, r := range *kal.Referrers() {
+				if st, ok := r.(*ssa.Store); ok && st.Addr == ssa.Value(kal) {
+					if ld, ok := st.Val.(*ssa.UnOp); ok && ld.Op == token.MUL {
+						if inner, ok := ld.X.(*ssa.Alloc); ok {
+							lit = inner
+						}
+					}
+				}
+			}
+			rows := litStores(lit)
+			var out []string
+			for i := 0; ; i++ {
+				ks := rows[fmt.Sprintf("[%d].%s", i, kf)]
+				if len(ks) != 1 {
+					break
+				}
+				k := keyName(TermOf(ks[0], n.Ctx))
+				if k == "" {
+					return nil
+				}
+				out = append(out, k)
+			}
+			return out
+		}
+		return nil
+	}
 	// W: constant keys written outside ExecuteTxs
 	W := map[string]string{}
 	for _, fn := range []*ssa.Function{initc, final} {
 		g := BuildECFG(p, fn, ExpandOpts{MaxDepth: 3})
 		c.NoteGraph(g)
 		for _, n := range g.Select(func(n *Node) bool { return dsCall(n, "Put") }) {
-			k := keyName(ArgTerm(n, 1))
+			ks := putKeys(n)
+			k := ""
+			if len(ks) > 0 {
+				k = ks[0]
+			}
 			if k == "" {
 				c.Bad("C15-R1", fnShort(fn)+" ⟂ non-constant-key", fnName(fn), p.InstrPos(n.In), "a key written outside the transaction batch is not a constant: it cannot be excluded from the state root: "+trunc(ArgTerm(n, 1).String(), 80), nil)
 				continue
 			}
-			W[k] = fnShort(fn) + " @" + p.InstrPos(n.In)
+			for _, k := range ks {
+				W[k] = fnShort(fn) + " @" + p.InstrPos(n.In)
+			}
 		}
 	}
 	// other functions of the executor that write; a helper that only the three writers call
@@ -553,7 +605,7 @@ func runC15(c *Check) {
 		puts := g.Select(func(n *Node) bool { return dsCall(n, "Put") })
 		written := map[string]bool{}
 		for _, pn := range puts {
-			if k := keyName(ArgTerm(pn, 1)); k != "" {
+			for _, k := range putKeys(pn) {
 				written[k] = true
 			}
 		}
@@ -652,9 +704,18 @@ func runC15(c *Check) {
 				if !isBatchPut(pn) {
 					allBatched = false
 				}
-				if markers[keyName(ArgTerm(pn, 1))] {
+				isMarker, isOther := false, false
+				for _, k := range putKeys(pn) {
+					if markers[k] {
+						isMarker = true
+					} else {
+						isOther = true
+					}
+				}
+				if isMarker {
 					markerPuts = append(markerPuts, pn)
-				} else {
+				}
+				if isOther || !isMarker {
 					otherPuts = append(otherPuts, pn)
 				}
 			}
